@@ -335,6 +335,12 @@ class Interp(Engine):
             clause = ([], z3.BoolVal(True), index, v)
             self.store_clause(base, clause)
             return
+        if isinstance(base, Obj):
+            fn = self.methods.get((base.cls, '__setitem__'))
+            if fn is not None:
+                if self.loops:
+                    raise Undecided('object item store inside a symbolic loop')
+                return fn(self, base, idx, v)
         if isinstance(base, SV) and base.kind == 'val':
             raise Undecided('store into opaque array (would need aliasing model)')
         raise Undecided(f'store into {base!r}')
